@@ -25,9 +25,12 @@ pub struct Cfg {
   pub seed: u64,
   pub strategy: String,
   /// "drain" (consumers receive until Disconnected) | "leave" (consumers quit early, producers must see Closed)
+  /// | "prefill" (sequential prefix fills the buffer first) | "batchrace" (drain with batch-only producers)
   pub shape: String,
   pub kf: Vec<String>,
   pub trace: bool,
+  /// systematic exploration: initial priorities and change points (thread, local step) instead of a sampled strategy
+  pub explicit: Option<(Vec<i64>, Vec<(usize, u64)>)>,
 }
 
 struct ThreadWaker {
@@ -45,7 +48,7 @@ impl Wake for ThreadWaker {
 }
 
 #[track_caller]
-fn block_on(ctl: &Arc<Ctl>, mut fut: Box<dyn DynFut>) -> OpOut {
+fn block_on(ctl: &Arc<Ctl>, mut fut: Box<dyn DynFut>, salt: u32) -> OpOut {
   let w = Arc::new(ThreadWaker { ctl: ctl.clone(), th: std::thread::current() });
   let waker = Waker::from(w);
   let mut cx = Context::from_waker(&waker);
@@ -54,10 +57,10 @@ fn block_on(ctl: &Arc<Ctl>, mut fut: Box<dyn DynFut>) -> OpOut {
     if let Some(out) = fut.poll(&mut cx) {
       return out;
     }
-    // every third Pending is followed by a re-poll without waiting for the wake
-    // (an executor may poll spuriously: select!/join!/timers), otherwise park
+    // some Pendings are followed by a re-poll without waiting for the wake (an executor
+    // may poll spuriously: select!/join!/timers), otherwise park; which ones depends on the seed
     n += 1;
-    if n % 3 == 2 {
+    if (n + salt) % 3 == 2 || (salt % 5 == 0 && n == 1) {
       Controller::spin(&**ctl, std::panic::Location::caller());
     } else {
       Controller::park(&**ctl, None, std::panic::Location::caller());
@@ -67,7 +70,14 @@ fn block_on(ctl: &Arc<Ctl>, mut fut: Box<dyn DynFut>) -> OpOut {
 
 enum Role {
   Producer { h: (u32, Box<dyn DynTx>), plan: Vec<(&'static str, Vec<u32>)>, close_at_end: bool },
-  Consumer { h: (u32, Box<dyn DynRx>), forms: Vec<(&'static str, usize)>, quit_after: Option<usize> },
+  Consumer { h: (u32, Box<dyn DynRx>), forms: Vec<(&'static str, usize)>, quit_after: Option<usize>, hold: bool },
+}
+
+/// Shape "hold": a consumer that has taken its share keeps its handle and waits (parked, outside
+/// any channel operation) until every producer is done - progress must not depend on further receives.
+struct Linger {
+  producers_left: AtomicU32,
+  waiting: std::sync::Mutex<Vec<std::thread::Thread>>,
 }
 
 /// Per-thread operation currently in flight (for the quiesce record).
@@ -134,12 +144,16 @@ pub fn run_scenario(cfg: &Cfg) -> RunStat {
   let ks = [6u64, 12, 25, 50, 100, 200, 400];
   let k = ks[((cfg.seed / 7) % ks.len() as u64) as usize];
   let strat = match cfg.strategy.as_str() {
+    _ if cfg.explicit.is_some() => {
+      let (prios, cps) = cfg.explicit.clone().unwrap();
+      Strategy::PctExplicit { prios, cps }
+    }
     "pct" => Strategy::Pct { d: 2, k },
     "pct5" => Strategy::Pct { d: 3, k },
     _ => Strategy::Random { p: 0.25 },
   };
   let ctl = Ctl::new(n, cfg.seed ^ 0x9e3779b97f4a7c15, strat);
-  ctl.set_noise(0.05, 0.0);
+  ctl.set_noise(if cfg.explicit.is_some() { 0.0 } else { 0.05 }, 0.0);
   if cfg.trace {
     ctl.enable_trace();
   }
@@ -156,11 +170,16 @@ pub fn run_scenario(cfg: &Cfg) -> RunStat {
     let mut left = cfg.items;
     while left > 0 {
       let mut forms: Vec<&'static str> = vec!["send", "try_send"];
-      if cfg.shape == "prefill" {
+      if cfg.shape == "prefill" || cfg.shape == "manyrx" {
         forms = vec!["try_send", "try_send", "send"];
       }
       if tinfo.batch && left >= 2 {
-        forms.extend(["send_batch", "send_batch_mut", "try_send_batch"]);
+        if cfg.shape == "batchrace" {
+          // several producers claim runs of slots at the edge of the window
+          forms = vec!["send_batch", "send_batch_mut", "try_send_batch", "send_batch"];
+        } else {
+          forms.extend(["send_batch", "send_batch_mut", "try_send_batch"]);
+        }
       }
       let f = forms[rng.random_range(0..forms.len())];
       let k = if f.contains("batch") { rng.random_range(2..=left.min(3)) } else { 1 };
@@ -177,6 +196,9 @@ pub fn run_scenario(cfg: &Cfg) -> RunStat {
   }
   for h in rxs.into_iter() {
     let mut forms: Vec<(&'static str, usize)> = vec![("recv", 1), ("try_recv", 1)];
+    if cfg.shape == "manyrx" {
+      forms = vec![("recv", 1), ("recv", 1)];
+    }
     if rinfo.timeout && !rinfo.is_async {
       forms.push(("recv_timeout", 1));
     }
@@ -185,17 +207,30 @@ pub fn run_scenario(cfg: &Cfg) -> RunStat {
       forms.push(("recv_batch_mut", 3));
       forms.push(("try_recv_batch", 2));
     }
-    let quit_after = if cfg.shape == "leave" { Some(rng.random_range(0..=cfg.items)) } else { None };
-    roles.push(Role::Consumer { h, forms, quit_after });
+    // shape "hold": every consumer takes a quota; some then leave (drop the handle while senders may be
+    // parked), the others keep the handle and wait for the producers
+    let hold = cfg.shape == "hold" && rng.random_bool(0.6);
+    let quit_after = if cfg.shape == "leave" {
+      Some(rng.random_range(0..=cfg.items))
+    } else if hold {
+      Some(rng.random_range(1..=(cfg.items * np).max(1)))
+    } else if cfg.shape == "hold" {
+      Some(rng.random_range(0..=1))
+    } else {
+      None
+    };
+    roles.push(Role::Consumer { h, forms, quit_after, hold });
   }
 
+  let linger = Arc::new(Linger { producers_left: AtomicU32::new(np as u32), waiting: std::sync::Mutex::new(vec![]) });
   let mut joins = vec![];
   for (tid, role) in roles.into_iter().enumerate() {
     let ctl2 = ctl.clone();
+    let linger2 = linger.clone();
     let cur2 = cur.clone();
     let abort2 = abort.clone();
     let seed = cfg.seed.wrapping_add(tid as u64 * 7919);
-    joins.push(ctl.spawn(tid, gen_, move || { hist::join(gen_); run_role(tid, role, ctl2, cur2, abort2, seed) }));
+    joins.push(ctl.spawn(tid, gen_, move || { hist::join(gen_); run_role(tid, role, ctl2, cur2, abort2, seed, linger2) }));
   }
 
   let outcome = ctl.run(Duration::from_secs(30));
@@ -237,8 +272,19 @@ pub fn run_scenario(cfg: &Cfg) -> RunStat {
   RunStat { outcome, leaked, records, trace }
 }
 
-fn run_role(tid: usize, role: Role, ctl: Arc<Ctl>, cur: Arc<Cur>, abort: Arc<AtomicBool>, seed: u64) {
+fn producer_done(ctl: &Arc<Ctl>, linger: &Linger) {
+  if linger.producers_left.fetch_sub(1, Ordering::SeqCst) == 1 {
+    for th in linger.waiting.lock().unwrap().iter() {
+      ctl.unpark(th.id());
+      th.unpark();
+    }
+  }
+}
+
+fn run_role(tid: usize, role: Role, ctl: Arc<Ctl>, cur: Arc<Cur>, abort: Arc<AtomicBool>, seed: u64, linger: Arc<Linger>) {
   let mut rng = StdRng::seed_from_u64(seed);
+  // a yield point before the first call: the schedule may delay a thread before it has started anything
+  Controller::point(&*ctl, "start", std::panic::Location::caller(), 0);
   let mut seq = 0u32;
   let mut next_o = |cur: &Cur| {
     seq += 1;
@@ -248,6 +294,13 @@ fn run_role(tid: usize, role: Role, ctl: Arc<Ctl>, cur: Arc<Cur>, abort: Arc<Ato
   };
   match role {
     Role::Producer { h: (hid, mut tx), plan, close_at_end } => {
+      struct DoneGuard(Arc<Ctl>, Arc<Linger>);
+      impl Drop for DoneGuard {
+        fn drop(&mut self) {
+          producer_done(&self.0, &self.1);
+        }
+      }
+      let _done = DoneGuard(ctl.clone(), linger.clone());
       let info = tx.info();
       'plan: for (form, ids) in plan {
         if abort.load(Ordering::SeqCst) {
@@ -274,7 +327,7 @@ fn run_role(tid: usize, role: Role, ctl: Arc<Ctl>, cur: Arc<Cur>, abort: Arc<Ato
           let o = next_o(&cur);
           let is_fut = info.is_async && !form.starts_with("try");
           hist::rec_call(o, hid, form, &pending, 0, false);
-          let out = if is_fut { block_on(&ctl, tx.start(form, vs)) } else { tx.sync_op(form, vs) };
+          let out = if is_fut { block_on(&ctl, tx.start(form, vs), rng.random_range(0..30)) } else { tx.sync_op(form, vs) };
           hist::rec_ret(o, out.res, out.n, &out.vals, &out.back);
           cur.0[tid].store(0, Ordering::SeqCst);
           match out.res {
@@ -318,7 +371,7 @@ fn run_role(tid: usize, role: Role, ctl: Arc<Ctl>, cur: Arc<Cur>, abort: Arc<Ato
       hist::rec_ret(o, "ok", 0, &[], &[]);
       cur.0[tid].store(0, Ordering::SeqCst);
     }
-    Role::Consumer { h: (hid, mut rx), forms, quit_after } => {
+    Role::Consumer { h: (hid, mut rx), forms, quit_after, hold } => {
       let info = rx.info();
       let mut got = 0usize;
       let mut empties = 0usize;
@@ -338,7 +391,7 @@ fn run_role(tid: usize, role: Role, ctl: Arc<Ctl>, cur: Arc<Cur>, abort: Arc<Ato
         let o = next_o(&cur);
         let is_fut = info.is_async && !form.starts_with("try");
         hist::rec_call(o, hid, form, &[], max, false);
-        let out = if is_fut { block_on(&ctl, rx.start(form, max)) } else { rx.sync_op(form, max, Duration::from_millis(2)) };
+        let out = if is_fut { block_on(&ctl, rx.start(form, max), rng.random_range(0..30)) } else { rx.sync_op(form, max, Duration::from_millis(2)) };
         hist::rec_ret(o, out.res, out.n, &out.vals, &out.back);
         cur.0[tid].store(0, Ordering::SeqCst);
         match out.res {
@@ -351,6 +404,13 @@ fn run_role(tid: usize, role: Role, ctl: Arc<Ctl>, cur: Arc<Cur>, abort: Arc<Ato
             Controller::spin(&*ctl, std::panic::Location::caller());
           }
           _ => break, // disc
+        }
+      }
+      if hold {
+        // keep the handle, outside any operation, until the producers are done
+        linger.waiting.lock().unwrap().push(std::thread::current());
+        while linger.producers_left.load(Ordering::SeqCst) > 0 && !abort.load(Ordering::SeqCst) {
+          Controller::park(&*ctl, None, std::panic::Location::caller());
         }
       }
       let o = next_o(&cur);
